@@ -242,6 +242,9 @@ def _convert_int(value: Any, conversion_fn: PyValToCstFunc) -> cst.CSTNode:
 def _convert_float(value: Any, conversion_fn: PyValToCstFunc) -> cst.CSTNode:
   """Converts a constant float to CST."""
   del conversion_fn  # Not used.
+  if value != value or value in (float('inf'), float('-inf')):
+    # repr() gives `nan` / `inf` / `-inf`, which are names, not literals.
+    return cst.parse_expression(f"float('{value!r}')")
   return cst.parse_expression(repr(value))
 
 
